@@ -117,6 +117,11 @@ func errPropFunc(c *Ctx, fn *ssa.Function) {
 					continue
 				}
 				name := callName(x)
+				// clean-up inside a closure that the parent only defers (remove the temp file, close a handle)
+				if id := staticID(x); fn.Parent() != nil && onlyDeferred(fn) && (id == "os.Remove" || id == "os.RemoveAll" || strings.HasSuffix(name, ".Close") || name == "Close") {
+					c.OK(P.InstrPos(x), "error of "+name+" in "+ir.FuncName(fn), "clean-up in a deferred closure: it cannot turn a failure into a success return", true)
+					continue
+				}
 				if !hasErr {
 					c.Undecided(fn, P.InstrPos(x), "error of "+name, "call returns an error but the enclosing function has no error result")
 					continue
